@@ -1,6 +1,6 @@
 //! C03 — guest memory reads and writes behave like one flat sparse byte array (E1 + inputs).
 
-use crate::layouts::{build_mmap, build_mmap_file, cell_layouts, Layout, MockMemory, RegionPtrs};
+use crate::layouts::{build_mmap, build_mmap_file, build_mmap_route_checked, cell_layouts, Layout, MockMemory, RegionPtrs};
 use crate::report::{hex, Ctx, Tier};
 use serde_json::{json, Value};
 use std::collections::{HashSet, VecDeque};
@@ -674,7 +674,7 @@ mod xen_dev {
 pub fn run(tier: Tier, replay: Option<String>) -> i32 {
     let ctx = crate::new_ctx("C03", tier, "model_checking", &replay);
     let xen = cfg!(feature = "xen");
-    ctx.set_rule("E1: (a) depth 1 from a state in which every mapped byte carries a distinct label: every layout over U one-byte cells x bases {0, mid, top} x every route (write, read, *_slice, *_obj of 1..16 bytes, the four stream forms with ample in-memory streams, store/load) x every start address in [base-1, base+U+1] x every length 1..=U+2; (b) BFS over all histories up to depth 3 of a reduced alphabet (all routes x ranges that overlap and straddle region boundaries and holes), state = complete memory contents, restored from the snapshot. Every transition runs on the real memory object; result class, counts, the complete guest memory (all regions, via host pointers), read buffers incl. untouched tail and (file-backed) the backing file are compared with a sparse byte-array model.");
+    ctx.set_rule("E1: (a) depth 1 from a state in which every mapped byte carries a distinct label: every layout over U one-byte cells x bases {0, mid, top} (the mmap-backed map is built, rotating with the layout, by one constructor call, by inserting the regions one by one from the back, or together with extra regions that are removed again - a valid update may not be refused and the resulting map must behave the same) x every route (write, read, *_slice, *_obj of 1..16 bytes, the four stream forms with ample in-memory streams, store/load) x every start address in [base-1, base+U+1] x every length 1..=U+2; (b) BFS over all histories up to depth 3 of a reduced alphabet (all routes x ranges that overlap and straddle region boundaries and holes), state = complete memory contents, restored from the snapshot. Every transition runs on the real memory object; result class, counts, the complete guest memory (all regions, via host pointers), read buffers incl. untouched tail and (file-backed) the backing file are compared with a sparse byte-array model.");
     ctx.assume("error variants other than InvalidGuestAddress and PartialBuffer{expected,completed} are compared by class only");
     if xen {
         ctx.assume("Xen build: the cell layouts use MmapXenFlags::UNIX mappings; grant regions (mapped in advance and on demand) are exercised on the emulated gntdev with page-sized regions");
@@ -718,9 +718,10 @@ pub fn run(tier: Tier, replay: Option<String>) -> i32 {
                     }
                     for base in [0u64, (1u64 << 32) - 3, u64::MAX - u as u64] {
                         let l = Layout::from_cells(base, c);
-                        match build_mmap(&l) {
-                            Ok(m) => depth1(ctx, anon, &m, &l, base, u, None),
-                            Err(e) => ctx.machinery(&format!("cannot build {}: {}", l.describe(), e)),
+                        // the construction route rotates with the layout: one call, insertions,
+                        // or extra regions removed again
+                        if let Some(m) = build_mmap_route_checked(ctx, "C03", &l, (ci + (base % 7) as usize) % 3) {
+                            depth1(ctx, anon, &m, &l, base, u, None);
                         }
                         if !xen {
                             let mock = MockMemory::new(&l);
@@ -768,7 +769,10 @@ pub fn run(tier: Tier, replay: Option<String>) -> i32 {
             let l = super::c02::many_regions(0x1000, n, pattern);
             let st = Model::labelled(&l);
             let span = l.regs.last().unwrap().0 + l.regs.last().unwrap().1 - 0x1000;
-            let m = build_mmap(&l).unwrap();
+            let m = match build_mmap_route_checked(&ctx, "C03", &l, pattern % 3 + if n % 2 == 0 { 1 } else { 0 }) {
+                Some(m) => m,
+                None => continue,
+            };
             let mut t = 0u64;
             for d in 0..=span {
                 for len in [1usize, 2, 3, 4, 5, 8, span as usize + 1] {
